@@ -478,7 +478,20 @@ def _real_body(stats):
     def body(case):
         _real_n[0] += 1
         shard_i = int(os.environ.get("VERIF_SHARD", "0"))
-        r = realdata.run_case(case, 32000 + shard_i * 40 + (_real_n[0] % 8) * 4, 1000 + shard_i * 6, f"v7r{os.getpid() % 10000}x{_real_n[0] % 1000}")
+        try:
+            r = realdata.run_case(case, 32000 + shard_i * 40 + (_real_n[0] % 8) * 4, 1000 + shard_i * 6, f"v7r{os.getpid() % 10000}x{_real_n[0] % 1000}")
+        except Violation as v:
+            if v.clause in ("bytes-differ", "fetch-bytes"):
+                raise  # wrong bytes are wrong whenever they happen
+            # something did not arrive in time: on a starved machine that is not the library's doing. The same script once more;
+            # only a failure that recurs is reported
+            _real_n[0] += 1
+            try:
+                r = realdata.run_case(case, 32000 + shard_i * 40 + (_real_n[0] % 8) * 4, 1000 + shard_i * 6, f"v7r{os.getpid() % 10000}y{_real_n[0] % 1000}")
+            except Violation as v2:
+                raise Violation(f"{v2} (on both of two executions; the first: {v})", v2.clause)
+            if stats is not None:
+                stats.inconclusive += 1
         nt = r["transfers"] - r["redundant"] >= 1 and r["concurrent_commands"] >= 3
         return nt, ["real_data_plane_sample"] + (["real_redundant_transfer"] if r["redundant"] else []) + (["real_fetch"] if r["fetches"] else []) + \
             (["real_payload_over_1MB"] if any(d["size"] > 1_000_000 for d in case["datasets"]) else [])
